@@ -156,6 +156,9 @@ func execStep(w *world.World, s Step) bool {
 		if s.Q {
 			q = "question?"
 		}
+		if s.Z > 65000 {
+			q = strings.Repeat("why? ", s.Z/5+1)
+		}
 		w.SMPStart(p, secretBytes(s.S), q, s.S)
 	case "SMPAnswer":
 		w.SMPAnswer(p, secretBytes(s.S), s.S)
@@ -535,6 +538,46 @@ func genSchedule(rng *rand.Rand, family string, depth int) *Schedule {
 			add(Step{A: "SMPStart", P: oth, S: 5})
 			add(Step{A: "Deliver", P: ini})
 			add(Step{A: "SMPAnswer", P: ini, S: 5})
+			for k := 0; k < 3; k++ {
+				add(Step{A: "Deliver", P: "A"})
+				add(Step{A: "Deliver", P: "B"})
+			}
+		}
+		return sc
+	case "smpbigq":
+		// a start refused because the question does not fit into a TLV, at each point of a run or with none in
+		// progress; what follows (the peer's next message, a fresh run either way) goes on as if it had not been made
+		sc.Setup = "ake"
+		sc.Frag = map[string]int{}
+		sc.Pol["A"], sc.Pol["B"] = 3, 3
+		if genIdx%2 == 1 {
+			sc.Pol["A"], sc.Pol["B"] = 1, 1
+		}
+		{
+			at := (genIdx / 2) % 4
+			big := Step{A: "SMPStart", P: []string{"A", "B"}[(genIdx/8)%2], S: 1, Q: true, Z: 70000}
+			if at == 0 {
+				add(big)
+			}
+			add(Step{A: "SMPStart", P: "A", S: 1})
+			if at == 1 {
+				add(big)
+			}
+			add(Step{A: "Deliver", P: "B"})
+			if at == 2 {
+				add(big)
+			}
+			add(Step{A: "SMPAnswer", P: "B", S: 1})
+			if at == 3 {
+				add(big)
+			}
+			for k := 0; k < 4; k++ {
+				add(Step{A: "Deliver", P: "A"})
+				add(Step{A: "Deliver", P: "B"})
+			}
+			add(Step{A: "SMPStart", P: "B", S: 5})
+			add(Step{A: "Deliver", P: "A"})
+			add(Step{A: "SMPAnswer", P: "A", S: 5})
 			for k := 0; k < 3; k++ {
 				add(Step{A: "Deliver", P: "A"})
 				add(Step{A: "Deliver", P: "B"})
